@@ -386,7 +386,7 @@ def build_fn(unit, item, imp, fnitem, spec: Fn, cover=False):
             applied.append((rule, rx, f"{rp} x{n}"))
         sig, body = whole2.split("\x00")
     # R21: operators on non-primitive operands -> the trait calls they desugar to
-    if getattr(unit, "ufcs", False) and not spec.no_ufcs:
+    if (getattr(unit, "ufcs", False) or spec.name in getattr(unit, "ufcs_fns", ())) and not spec.no_ufcs:
         from . import ufcs as _ufcs
         try:
             body, n21 = _ufcs.rewrite_body(body)
@@ -565,7 +565,12 @@ def build_unit(unit: Unit, cover=False, prelude_dir=None, skip=()):
         if item.header is not None:
             imps = s.find_impls(item.header)
             if not imps:
-                raise LostAnchor(f"{item.file} :: {item.header}: impl not found")
+                if item.mode == "stub":
+                    raise LostAnchor(f"{item.file} :: {item.header}: impl not found")
+                meta["modules"][modname] = dict(file=item.file, header=item.header, mode="lost", error="LostAnchor: impl not found",
+                                                fns=[dict(fn=f_.name, mode="lost", props=list(f_.props)) for f_ in item.fns],
+                                                lines=[0, -1], label=item.label)
+                continue
         # R7b: a trait impl checked as an inherent impl -> its associated types are substituted textually
         if item.header is not None and item.header_out and item.header_out != item.header:
             extra = []
@@ -577,15 +582,24 @@ def build_unit(unit: Unit, cover=False, prelude_dir=None, skip=()):
                             extra.append(("R7b", r'\bSelf::' + mt.group(1) + r'\b', mt.group(2).strip()))
             if extra:
                 item = dataclasses.replace(item, fns=[dataclasses.replace(f_, subst=list(f_.subst) + extra) for f_ in item.fns])
-        for spec in item.fns:
-            if spec.as_const:
-                cst = s.find_const(item.header, spec.name)
-                t, m = build_const(unit, item, cst, spec, cover)
-            else:
-                imp, fnitem = s.find_fn(item.header, spec.name)
-                t, m = build_fn(unit, item, imp, fnitem, spec, cover)
-            fn_texts.append(t)
-            fn_metas.append(m)
+        try:
+            for spec in item.fns:
+                if spec.as_const:
+                    cst = s.find_const(item.header, spec.name)
+                    t, m = build_const(unit, item, cst, spec, cover)
+                else:
+                    imp, fnitem = s.find_fn(item.header, spec.name)
+                    t, m = build_fn(unit, item, imp, fnitem, spec, cover)
+                fn_texts.append(t)
+                fn_metas.append(m)
+        except (LostAnchor, Unsupported) as e:
+            if item.mode == "stub":
+                raise
+            # the item cannot be extracted: it stays undecided, the rest of the unit is still checked
+            meta["modules"][modname] = dict(file=item.file, header=item.header, mode="lost", error=f"{type(e).__name__}: {e}",
+                                            fns=[dict(fn=f_.name, mode="lost", props=list(f_.props)) for f_ in item.fns],
+                                            lines=[0, -1], label=item.label)
+            continue
         assoc = ""
         if item.header is not None and item.keep_assoc:
             for imp_ in s.find_impls(item.header):
